@@ -27,7 +27,7 @@ func init() {
 	register(&core.Rule{ID: "MB-RESEND", Props: []string{"C06"}, Floor: 3,
 		Doc: "TCP mailbox sender: every value successfully encoded in WriteValue is appended, in order and with the same operand, to the resend buffer used when Commit must replay the section on a new connection",
 		Run: runMBResend})
-	register(&core.Rule{ID: "CH-DEFER", Props: []string{"C06"}, Floor: 3,
+	register(&core.Rule{ID: "CH-DEFER", Props: []string{"C06", "C01"}, Floor: 3,
 		Doc: "OutputChan: WriteValue only buffers; Commit sends the buffer in index order; Abort drops it",
 		Run: runCHDefer})
 	register(&core.Rule{ID: "MB-LEN", Props: []string{"C06"}, Floor: 2,
@@ -742,6 +742,42 @@ func runCHDefer(c *core.Ctx) {
 			return true
 		})
 		c.Check(inOrder, "OutputChan.Commit:sends-buffer-in-order", cm.Pos(), "for _, v := range buffer { channel <- v }", "Commit does not send every buffered value in index order")
+		// ... and forgets them: the body that sends (Commit itself or the goroutine it starts) empties the buffer on every path
+		emptied := false
+		for _, b := range bodiesOf(cm) {
+			sends := false
+			ast.Inspect(b.body, func(m ast.Node) bool {
+				if lit, isLit := m.(*ast.FuncLit); isLit && b.lit != lit {
+					return false
+				}
+				if s, ok := m.(*ast.SendStmt); ok && an.SelectedField(info, s.Chan) == ch {
+					sends = true
+				}
+				return true
+			})
+			if !sends {
+				continue
+			}
+			g := graphOfBody(e, cm.Pkg, cm, b)
+			ok, _ := g.MustPass(nil, func(a ast.Node) bool {
+				rhs, isSet := fieldIsAssigned(info, a, buf)
+				if !isSet || rhs == nil {
+					return false
+				}
+				if isNilIdent(info, rhs) {
+					return true
+				}
+				if sl, isSl := an.Unparen(rhs).(*ast.SliceExpr); isSl && sl.High != nil {
+					if tv := info.Types[sl.High]; tv.Value != nil && tv.Value.ExactString() == "0" {
+						return true
+					}
+				}
+				return false
+			}, nil)
+			emptied = ok
+		}
+		c.Check(emptied, "OutputChan.Commit:forgets-sent-values", cm.Pos(), "the buffer is emptied on every path of the sending body",
+			"Commit keeps the buffered values after sending them: the next section's commit sends them again (every message is duplicated once per later commit)")
 	}
 	{
 		info := ab.Pkg.Info
